@@ -10,9 +10,24 @@ def validate(path):
     return tlc_must("HEvTrace", cfg(init="Init", next_="Next", constraints=["EvReport"]), env={"TRACE_FILE": path}, workers=1, name="ev", timeout=3400, mem="4g")
 
 
-def run_ev(pid, kinds, tier, seed, verdict, per_quick=3, per_thorough=25, describe=None):
+def is_ev_case(replay):
+    cs = read_json(os.path.join(replay, "case.json"))
+    return str(cs.get("key", "")).startswith("EV:")
+
+
+def replay_ev(pid, kinds, replay, describe=None):
+    """re-generate the program of a stored EV case and validate the calls issued for it again"""
+    cs = read_json(os.path.join(replay, "case.json"))["case"]
+    lang, bits, sd = cs["id"].split("/")[:3]
+    sw = dict(zip(("disUse", "disContra", "noBounds", "noParamFn"), [b == "1" for b in bits]))
+    verdict = Verdict(pid)
+    run_ev(pid, kinds, "quick", 0, verdict, describe=describe, only=[(lang, sw, [int(sd)])])
+    return verdict.finish()
+
+
+def run_ev(pid, kinds, tier, seed, verdict, per_quick=3, per_thorough=25, describe=None, only=None):
     """returns (programs, events judged, events skipped, sample event)"""
-    jobs = tc.jobs_for(tier, seed + 31, per_quick, per_thorough)
+    jobs = only or tc.jobs_for(tier, seed + 31, per_quick, per_thorough)
     d = subdir(pid.lower() + "ev")
 
     def ex(i):
@@ -42,6 +57,8 @@ def run_ev(pid, kinds, tier, seed, verdict, per_quick=3, per_thorough=25, descri
             ev = c["events"][j["event"] - 1]
             for clause, shape in j["bad"]:
                 key = "%s/%s" % (clause if "." in clause else ev["kind"] + "." + clause, shape)
+                if pid in ("C06", "C10"):        # these checks name their clauses without the operation (Sound/.., Unifier/..)
+                    key = key.split(".", 1)[1]
                 verdict.add("EV:" + key, {"id": c["id"], "lang": c["lang"], "ct": c["ct"], "event": ev},
                             "during generation of %s: %s" % (c["id"], describe(ev) if describe else json.dumps(ev)[:300]))
     return nprog, judged, skipped, sample
